@@ -15,6 +15,7 @@ import (
 	_ "panmc/checks/c10"
 	_ "panmc/checks/c11"
 	_ "panmc/checks/c12"
+	_ "panmc/checks/c13"
 	_ "panmc/checks/c15"
 	_ "panmc/checks/c18"
 )
